@@ -43,7 +43,7 @@ WIDTH = {'int8': 1, 'int16': 2, 'int32': 4, 'int64': 8, 'uint8': 1, 'uint16': 2,
 COQ_DT = {'int8': 'I8', 'int16': 'I16', 'int32': 'I32', 'int64': 'I64', 'uint8': 'U8', 'uint16': 'U16',
           'uint32': 'U32', 'uint64': 'U64', 'float16': 'F16', 'bfloat16': 'BF16', 'float32': 'F32',
           'float64': 'F64', 'complex64': 'C64', 'complex128': 'C128', 'bool': 'BOOL'}
-LAYOUTS = ('C', 'F', 'strided', 'reversed', 'broadcast')
+LAYOUTS = ('C', 'F', 'strided', 'reversed', 'broadcast', 'colslice', 'readonly')
 SHAPES = [[], [0], [1], [3], [0, 2], [2, 0], [2, 3], [1, 1], [0, 2, 2], [2, 0, 2], [2, 2, 0], [2, 1, 3],
           [0, 1, 2, 2], [2, 1, 0, 2], [2, 1, 2, 0], [2, 1, 2, 3]]
 
@@ -101,6 +101,13 @@ def arr_spec(dtype, order, layout, shape, rng=None, jax=False, salt=0):
 # --------------------------------------------------------------------------
 # spec -> python object
 
+import collections as _collections
+NT0 = _collections.namedtuple('NT0', [])                 # module level: picklable
+NT1 = _collections.namedtuple('NT1', ['f0'])
+NT2 = _collections.namedtuple('NT2', ['f0', 'f1'])
+_NT = {0: NT0, 1: NT1, 2: NT2}
+
+
 def _np_dtype(name):
   if name == 'bfloat16':
     import ml_dtypes
@@ -139,6 +146,8 @@ def _build_arr(spec):
     out = np.array(a, order='C', copy=True)
     if layout == 'broadcast':
       out = np.broadcast_to(out, shape)
+    if layout == 'readonly':
+      out.flags.writeable = False
   elif layout == 'F':
     out = np.asfortranarray(a)
   elif layout == 'strided':
@@ -148,6 +157,14 @@ def _build_arr(spec):
   elif layout == 'reversed':
     big = np.array(a[tuple(slice(None, None, -1) for _ in shape)], order='C', copy=True)
     out = big[tuple(slice(None, None, -1) for _ in shape)]
+  elif layout == 'colslice':        # a non-contiguous column window of a wider (transposed) array
+    big = np.zeros(tuple(s + 3 for s in shape), dtype=dt).T
+    out = big[tuple(slice(2, 2 + s) for s in reversed(shape))].T if False else \
+        np.zeros(tuple(s + 3 for s in reversed(shape)), dtype=dt).T[tuple(slice(1, 1 + s) for s in shape)]
+    out[...] = a
+  elif layout == 'readonly':        # read-only Fortran-ordered array
+    out = np.asfortranarray(a)
+    out.flags.writeable = False
   elif layout == 'broadcast':
     sub = np.array(a[0:1], order='C', copy=True).reshape(shape[1:]) if shape[0] > 0 else np.zeros(shape[1:], dtype=dt)
     out = np.broadcast_to(sub, shape)
@@ -168,7 +185,30 @@ def _build(spec):
   if t == 'list':
     return [_build(v) for v in spec['items']]
   if t == 'tuple':
-    return tuple(_build(v) for v in spec['items'])
+    vals = tuple(_build(v) for v in spec['items'])
+    if spec.get('cls') == 'namedtuple':
+      return _NT[len(vals)](*vals)
+    return vals
+  if t == 'container':       # container kinds msgpack_serialize does not accept (pickle does)
+    import collections
+    import dataclasses
+    inner = {k: _build(v) for k, v in spec['items']}
+    k = spec['k']
+    if k == 'OrderedDict':
+      return collections.OrderedDict(inner)
+    if k == 'defaultdict':
+      return collections.defaultdict(int, inner)
+    if k == 'FlatMapping':
+      import haiku as hk
+      return hk.data_structures.to_immutable_dict(inner)      # haiku FlatMap (a Mapping that is not a dict)
+    if k == 'MappingProxy':
+      import types
+      return types.MappingProxyType(inner)
+    if k == 'dataclass':
+      return dataclasses.make_dataclass('DC', list(inner))(**inner)
+    if k == 'dict_values':
+      return inner.values()
+    raise AssertionError(k)
   if t == 'set':
     return {1, 2}
   if t == 'arr':
@@ -252,6 +292,11 @@ def _arr_bits(a):
 
 
 def _observe(y):
+  import collections.abc
+  if isinstance(y, collections.abc.Mapping) and type(y) is not dict:      # dict subclasses / other mappings (pickle path)
+    return {**_observe(dict(y)), 'cls': type(y).__name__}
+  if isinstance(y, tuple) and type(y) is not tuple:
+    return {'t': 'tuple', 'cls': 'namedtuple' if hasattr(y, '_fields') else type(y).__name__, 'items': [_observe(v) for v in y]}
   if isinstance(y, dict):
     items = []
     for k, v in y.items():
@@ -339,15 +384,22 @@ class Unsupp(Exception):
 INT_LO, INT_HI = -2 ** 63, 2 ** 64
 
 
-def _expect(spec):
+def _expect(spec, pickled=False):
+  """pickled=True: what save_state/load_state must give back: every container kind and the arrays' byte order are kept."""
   t = spec['t']
   if t == 'dict':
-    return {'t': 'dict', 'items': [[k, _expect(v)] for k, v in spec['items']]}
+    return {'t': 'dict', 'items': [[k, _expect(v, pickled)] for k, v in spec['items']]}
   if t == 'list':
-    return {'t': 'list', 'items': [_expect(v) for v in spec['items']]}
+    return {'t': 'list', 'items': [_expect(v, pickled) for v in spec['items']]}
+  if pickled and t == 'tuple':
+    return {'t': 'tuple', **({'cls': spec['cls']} if spec.get('cls') else {}), 'items': [_expect(v, True) for v in spec['items']]}
+  if pickled and t == 'container' and spec['k'] in ('OrderedDict', 'defaultdict', 'FlatMapping'):
+    # (haiku's FlatMap pickles itself as a plain dict: either class is accepted for it)
+    return {'t': 'dict', **({'cls_any': True} if spec['k'] == 'FlatMapping' else {'cls': spec['k']}),
+            'items': [[k, _expect(v, True)] for k, v in spec['items']]}
   if t == 'arr':
-    return {'t': 'arr', 'dtype': spec['dtype'], 'native': True, 'shape': list(spec['shape']),
-            'bits': [int(b) for b in spec['bits']]}
+    return {'t': 'arr', 'dtype': spec['dtype'], 'native': True if not pickled else None,      # pickle: either byte order, same values
+            'shape': list(spec['shape']), 'bits': [int(b) for b in spec['bits']]}
   if t == 'obj':
     if all(isinstance(e, str) for e in spec['elems']):
       return {'t': 'obj', 'shape': list(spec['shape']), 'elems': list(spec['elems'])}
@@ -358,6 +410,8 @@ def _expect(spec):
     return {'t': 'int', 'v': str(int(spec['v']))}
   if t in ('npscalar', 'float', 'bool', 'none', 'str', 'bytes', 'complex'):
     return {k: v for k, v in spec.items()}
+  if t == 'container':
+    raise Unsupp('container-' + spec['k'])
   if t == 'other':
     if 'obj' in spec['k'] and _prod(spec['shape']) == 0:
       raise Unsupp('struct-hasobject-empty')
@@ -369,10 +423,10 @@ def _expect(spec):
 
 def _first_diff(e, o, path='$'):
   """None when equal; else (kind, path) with kind in type|dtype|shape|values|keys|length."""
-  if e.get('t') != o.get('t'):
+  if e.get('t') != o.get('t') or (not e.get('cls_any') and e.get('cls') != o.get('cls')):
     return 'type', path
   t = e['t']
-  if t in ('dict', 'list'):
+  if t in ('dict', 'list', 'tuple'):
     if len(e['items']) != len(o['items']):
       return 'length', path
     for i, (x, y) in enumerate(zip(e['items'], o['items'])):
@@ -386,7 +440,7 @@ def _first_diff(e, o, path='$'):
         return d
     return None
   if t == 'arr':
-    if e['dtype'] != o['dtype'] or not o.get('native', True):
+    if e['dtype'] != o['dtype'] or (e.get('native', True) is not None and bool(o.get('native', True)) != bool(e.get('native', True))):
       return 'dtype', path
     if e['shape'] != o['shape']:
       return 'shape', path
@@ -448,6 +502,12 @@ def _unsupported_leaves():
     yield {'t': 'npother', 'k': k}
   for v in (2 ** 64, 2 ** 64 + 1, -2 ** 63 - 1, 2 ** 100, -2 ** 100, 10 ** 30):
     yield {'t': 'int', 'v': str(v)}
+  one = [['a', arr_spec('int32', 'native', 'C', [2])], ['b', {'t': 'none'}]]
+  for k in ('OrderedDict', 'defaultdict', 'FlatMapping', 'MappingProxy', 'dataclass', 'dict_values'):
+    yield {'t': 'container', 'k': k, 'items': one}
+    yield {'t': 'dict', 'items': [['outer', {'t': 'list', 'items': [{'t': 'container', 'k': k, 'items': one}]}]]}
+  yield {'t': 'tuple', 'cls': 'namedtuple', 'items': [{'t': 'int', 'v': '1'}, arr_spec('float32', 'native', 'C', [1])]}
+  yield {'t': 'list', 'items': [{'t': 'tuple', 'cls': 'namedtuple', 'items': []}]}
 
 
 def _scalar_leaves():
@@ -595,6 +655,10 @@ def _size_trees():
     yield {'t': 'list', 'items': [{'t': 'int', 'v': str(i)} for i in range(n)]}
     yield {'t': 'dict', 'items': [['k%d' % (n - i), {'t': 'int', 'v': str(i)}] for i in range(n)]}
     yield {'t': 'obj', 'shape': [n], 'elems': [(b'%d' % i).hex() for i in range(n)]}
+  for n in (1023, 1024, 1025, 4095, 4096, 4097, 1000, 2000):
+    yield {'t': 'list', 'items': [{'t': 'int', 'v': str(i % 7)} for i in range(n)]}
+    yield {'t': 'obj', 'shape': [n], 'elems': ['%02x' % (i % 256) for i in range(n)]}
+    yield {'t': 'arr', 'dtype': 'int8', 'order': 'native', 'layout': 'F', 'shape': [n], 'bits': [i % 256 for i in range(n)]}
   yield {'t': 'list', 'items': [{'t': 'int', 'v': str(i)} for i in range(65536)]}
   yield {'t': 'arr', 'dtype': 'uint16', 'order': 'swapped', 'layout': 'F', 'shape': [300, 130], 'bits': [i % 65536 for i in range(39000)]}
   yield {'t': 'arr', 'dtype': 'int8', 'order': 'native', 'layout': 'C', 'shape': [0, 70000], 'bits': []}
@@ -619,7 +683,7 @@ def _sqlite_cases(rng, n):
           dt = rng.choice(['int32', 'uint8', 'float32', 'float16', 'int64', 'bool', 'bfloat16'])
           tail = rng.choice([[], [2], [2, 2], [0]])
           order = 'swapped' if (WIDTH[dt] > 1 and dt != 'bfloat16' and rng.random() < 0.3) else 'native'
-          feats.append([name, arr_spec(dt, order, rng.choice(LAYOUTS[:4]), [m] + tail, rng=rng)])
+          feats.append([name, arr_spec(dt, order, rng.choice(('C', 'F', 'strided', 'reversed', 'colslice', 'readonly')), [m] + tail, rng=rng)])
       clients.append([cid.hex(), feats])
     yield {'kind': 'sqlite', 'clients': clients}
   # sentinel collisions: ids / feature names equal to SQL text, column names, internal keys, wildcards, prefixes of each
@@ -680,7 +744,8 @@ def _ckptseq_cases(rng, n):
 
 
 def _state_spec(rng, jaxy=True):
-  mk = lambda dt, shape: arr_spec(dt, 'native', 'C', shape, rng=rng, jax=jaxy)
+  mk = lambda dt, shape: arr_spec(dt, 'native' if (jaxy or dt == 'bfloat16') else rng.choice(['native', 'swapped']),
+                                  'C' if jaxy else rng.choice(('C', 'F', 'strided', 'reversed', 'colslice', 'readonly')), shape, rng=rng, jax=jaxy)
   return {'t': 'dict', 'items': [
       ['params', {'t': 'dict', 'items': [['linear', {'t': 'dict', 'items': [['w', mk('float32', [3, 2])], ['b', mk('float32', [2])]]}],
                                          ['embed', {'t': 'dict', 'items': [['e', mk('bfloat16', [2, 2])]]}]]}],
@@ -723,6 +788,28 @@ def generate(tier, rng):
     yield c
   for c in _ckptseq_cases(rng, {'quick': 40, 'thorough': 250, 'search': 100}[tier]):
     yield c
+  # size-driven chunking: client counts at / around powers of two and multiples of 256 / 1000 / 1024, in one call and
+  # split over several calls in different orders (tiny payloads)
+  if tier == 'quick':
+    singles = [255, 256, 257, 512, 1000, 1024]
+    splits = [[3, 256], [256, 3], [256, 256], [1, 255, 256], [256, 0], [0, 256], [512, 1]]
+  else:
+    pts = sorted({p + e for p in [2 ** i for i in range(0, 13)] + [1000, 2000, 3000, 4000, 768, 1280, 1536, 3072] for e in (-1, 0, 1) if p + e >= 0})
+    singles = pts
+    splits = [[a, b] for a in (1, 3, 255, 256, 257, 1024) for b in (256, 512, 1000, 1024, 4096)] + \
+        [[256, 3], [512, 1], [256, 256, 256], [1, 255, 256, 512], [256, 0], [0, 256], [4096, 4096]]
+  for i, n in enumerate(singles):
+    yield {'kind': 'sqlite_big', 'counts': [n], 'form': i}
+  for i, sp in enumerate(splits):
+    yield {'kind': 'sqlite_big', 'counts': sp, 'form': i}
+  # every order of saving rounds {1,2,3} x keep 1..3, loading after every save
+  for perm in itertools.permutations([1, 2, 3]):
+    for keep in (1, 2, 3):
+      yield {'kind': 'ckptseq', 'ops': [op for r in perm for op in (['save', r, keep], ['load'])] + [['save', perm[0], keep], ['load']], 'jax': False}
+  yield {'kind': 'handover', 'hashseed': 12345 if tier == 'quick' else rng.randrange(1, 2 ** 31),
+         'tree': {'t': 'dict', 'items': [['c02', arr_spec('float16', 'swapped', 'F', [2, 3])], ['c00', {'t': 'obj', 'shape': [2], 'elems': ['', '6162']}],
+                                         ['', {'t': 'list', 'items': [{'t': 'str', 'v': 'k\u00e9y'}, {'t': 'npscalar', 'dtype': 'complex128', 'bits': 5},
+                                                                    {'t': 'dict', 'items': [['b', {'t': 'int', 'v': '1'}], ['a', {'t': 'none'}]]}]}]]}}
   if tier == 'thorough':
     yield {'kind': 'flags', 'env': {'JAX_ENABLE_X64': '1'}}
     yield {'kind': 'flags', 'env': {'JAX_ENABLE_X64': '0', 'JAX_NUMPY_RANK_PROMOTION': 'raise', 'JAX_DISABLE_JIT': '1'}}
@@ -732,6 +819,16 @@ def generate(tier, rng):
                          arr_spec('float32', 'native', 'C', [0]), arr_spec('int32', 'native', 'C', [], jax=True)]):
     yield {'kind': 'ckpt', 'api': ('state', 'checkpoint')[i % 2], 'tree': t, 'round': (0, 3)[i % 3 == 0], 'keep': 1}
     yield {'kind': 'ckpt', 'api': ('checkpoint', 'state')[i % 2], 'tree': t, 'round': 0, 'keep': 2}
+  # container kinds inside a checkpointed state (pickle keeps them all): the loaded tree has the same structure
+  leaf = lambda i: arr_spec(('float32', 'int16', 'bfloat16')[i % 3], 'native', 'C', [2], salt=i, jax=(i % 2 == 0))
+  kinds = [{'t': 'tuple', 'items': [leaf(0), {'t': 'none'}, {'t': 'tuple', 'items': []}]},
+           {'t': 'tuple', 'cls': 'namedtuple', 'items': [leaf(1), {'t': 'int', 'v': '3'}]},
+           {'t': 'container', 'k': 'OrderedDict', 'items': [['z', leaf(2)], ['a', leaf(3)]]},
+           {'t': 'container', 'k': 'FlatMapping', 'items': [['linear', {'t': 'container', 'k': 'FlatMapping', 'items': [['w', leaf(4)]]}]]},
+           {'t': 'container', 'k': 'defaultdict', 'items': [['k', {'t': 'list', 'items': [leaf(5), {'t': 'tuple', 'items': [leaf(6)]}]}]]},
+           {'t': 'list', 'items': [{'t': 'none'}, {'t': 'dict', 'items': [['p', {'t': 'tuple', 'cls': 'namedtuple', 'items': [leaf(7)]}], ['n', {'t': 'none'}]]}]}]
+  for i, t in enumerate(kinds):
+    yield {'kind': 'ckpt', 'api': ('checkpoint', 'state')[i % 2], 'tree': t, 'round': i, 'keep': 1}
   for i in range({'quick': 6, 'thorough': 30, 'search': 10}[tier]):
     yield {'kind': 'ckpt', 'api': ('state', 'checkpoint')[i % 2], 'tree': _state_spec(rng, jaxy=(i % 3 != 2)),
            'round': rng.choice([0, 1, 7, 99999999]), 'keep': rng.choice([1, 2])}
@@ -752,6 +849,8 @@ def _describe_input(spec, obj):
     return {'t': 'dict', 'items': [[k, _describe_input(v, obj[bytes.fromhex(k['b']) if isinstance(k, dict) else k])] for k, v in spec['items']]}
   if t in ('list', 'tuple'):
     return {'t': t, 'items': [_describe_input(v, o) for v, o in zip(spec['items'], obj)]}
+  if t == 'container':
+    return {'t': 'foreign'}
   if t == 'arr' and not spec.get('jax'):
     order, strides, off, buf = _memory(obj)
     return {'t': 'arr', 'dtype': spec['dtype'], 'order': order, 'shape': list(obj.shape), 'strides': strides,
@@ -784,7 +883,7 @@ def _check_built(spec, obj):
       if a.size > 1 and a.ndim >= 2 and min(a.shape) > 1:
         if spec['layout'] == 'F':
           assert a.flags.f_contiguous and not a.flags.c_contiguous
-        if spec['layout'] in ('strided', 'reversed', 'broadcast'):
+        if spec['layout'] in ('strided', 'reversed', 'broadcast', 'colslice'):
           assert not a.flags.c_contiguous
 
 
@@ -1058,7 +1157,7 @@ def _which_state(obs_value, nstates, jaxy):
   """Index of the tagged state equal to the loaded value (dtype / shape / bit patterns), -1 if none."""
   got = _jax_to_np(obs_value)
   for k in range(nstates):
-    if _first_diff(_expect(_tagged_state(k, jaxy)), got) is None:
+    if _first_diff(_expect(_tagged_state(k, jaxy), pickled=True), got) is None:
       return k
   return -1
 
@@ -1149,6 +1248,53 @@ def _ckpt_reference(ops):
   return out
 
 
+def _big_ids(n, salt):
+  """n distinct ids in a non-sorted order."""
+  return [b'%s%05d' % (bytes([97 + salt % 26]), (i * 7919 + salt) % 100003) for i in range(n)]
+
+
+def _run_sqlite_big(case):
+  """Many clients with tiny payloads, added in one or several add_many calls (counts = clients per call)."""
+  from fedjax.core import sqlite_federated_data as sfd
+  d = tempfile.mkdtemp(prefix='C16-')
+  try:
+    path = os.path.join(d, 'big.sqlite')
+    calls, want, k = [], [], 0
+    for ci, n in enumerate(case['counts']):
+      ids = _big_ids(n, ci)
+      rows = [(cid, {'x': np.array([(k + j) % 127] * ((k + j) % 3), dtype=np.int8)}) for j, cid in enumerate(ids)]
+      k += n
+      calls.append(rows)
+      want += [(cid, len(ex['x']), ex['x'].tolist()) for cid, ex in rows]
+    forms = [lambda l: l, iter, lambda l: (r for r in l), tuple]
+    try:
+      with sfd.SQLiteFederatedDataBuilder(path) as b:
+        for ci, rows in enumerate(calls):
+          b.add_many(forms[(ci + case.get('form', 0)) % len(forms)](rows))
+    except Exception as ex:  # pylint: disable=broad-except
+      return {'status': 'ser-error', 'err': _err(ex)}
+    try:
+      fd = sfd.SQLiteFederatedData.new(path)
+      num = int(fd.num_clients())
+      ids = list(fd.client_ids())
+      sizes = list(fd.client_sizes())
+      exs = [(c, ds.all_examples()['x']) for c, ds in fd.clients()]
+    except Exception as ex:  # pylint: disable=broad-except
+      return {'status': 'des-error', 'err': _err(ex)}
+    bad = None
+    if num != len(want) or len(ids) != len(want):
+      bad = f'{num} clients / {len(ids)} ids read back, {len(want)} written'
+    elif ids != [w[0] for w in want]:
+      bad = 'client ids / their order differ'
+    elif [(c, int(n)) for c, n in sizes] != [(w[0], w[1]) for w in want]:
+      bad = 'client sizes differ'
+    elif any(c != w[0] or e.dtype != np.int8 or e.tolist() != w[2] for (c, e), w in zip(exs, want)):
+      bad = 'examples differ'
+    return {'status': 'ok', 'written': len(want), 'read': num, 'bad': bad}
+  finally:
+    shutil.rmtree(d, ignore_errors=True)
+
+
 _FLAG_SCRIPT = '''
 import json, sys
 sys.path.insert(0, %r)
@@ -1172,6 +1318,71 @@ print('RESULT' + json.dumps({'n': len(cases), 'bad': out}))
 '''
 
 
+_HANDOVER_SCRIPT = '''
+import json, sys, hashlib
+sys.path.insert(0, %r)
+from harness import c16
+from fedjax.core import serialization, sqlite_federated_data as sfd
+from fedjax.training import checkpoint
+d, spec = sys.argv[1], json.loads(sys.argv[2])
+out = {}
+out['msgpack'] = c16._observe(serialization.msgpack_deserialize(open(d + '/tree.msgpack', 'rb').read()))
+out['bytes'] = hashlib.sha256(serialization.msgpack_serialize(c16._build(spec))).hexdigest()
+st, r = checkpoint.load_latest_checkpoint(d + '/ck')
+out['ckpt'] = [c16._jax_to_np(c16._observe(st)), int(r)]
+out['state'] = c16._jax_to_np(c16._observe(serialization.load_state(d + '/state.pkl')))
+fd = sfd.SQLiteFederatedData.new(d + '/data.sqlite')
+out['sqlite'] = [[c.hex(), int(fd.client_size(c)), c16._observe(dict(ds.all_examples()))] for c, ds in fd.clients()]
+print('RESULT' + json.dumps(out))
+'''
+
+
+def _run_handover(case):
+  """Everything this process writes (msgpack bytes, a checkpoint, a state file, a SQLite file) is read by a FRESH
+  interpreter with another PYTHONHASHSEED; that process also serialises the same value: the bytes must be identical."""
+  import hashlib
+  import json
+  import subprocess
+  import sys
+  from fedjax.core import serialization, sqlite_federated_data as sfd
+  from fedjax.training import checkpoint
+  d = tempfile.mkdtemp(prefix='C16-')
+  try:
+    spec = case['tree']
+    obj = _build(spec)
+    data = serialization.msgpack_serialize(obj)
+    with open(os.path.join(d, 'tree.msgpack'), 'wb') as f:
+      f.write(data)
+    state = _build(_tagged_state(3, True))
+    os.mkdir(os.path.join(d, 'ck'))
+    checkpoint.save_checkpoint(os.path.join(d, 'ck'), state, round_num=7)
+    serialization.save_state(state, os.path.join(d, 'state.pkl'))
+    clients = [(b'c02', {'x': np.arange(3, dtype=np.int16)}), (b'c00', {'x': np.arange(0, dtype=np.int16)}), (b'', {'x': np.arange(1, dtype=np.int16)})]
+    with sfd.SQLiteFederatedDataBuilder(os.path.join(d, 'data.sqlite')) as b:
+      b.add_many(clients)
+    env = dict(os.environ, PYTHONHASHSEED=str(case['hashseed']))
+    p = subprocess.run([sys.executable, '-c', _HANDOVER_SCRIPT % os.path.dirname(os.path.dirname(os.path.abspath(__file__))), d, json.dumps(spec)],
+                       env=env, capture_output=True, text=True, timeout=600)
+    line = [l for l in p.stdout.split('\n') if l.startswith('RESULT')]
+    if not line:
+      return {'status': 'error', 'err': (p.stderr or p.stdout)[-400:]}
+    got = json.loads(line[0][6:])
+    bad = []
+    if _first_diff(_expect(spec), got['msgpack']):
+      bad.append(['msgpack', 'bytes serialised here decode to another value in a fresh process'])
+    if got['bytes'] != hashlib.sha256(data).hexdigest():
+      bad.append(['bytes', 'the same value serialises to different bytes in a process with another PYTHONHASHSEED'])
+    exp_state = _expect(_tagged_state(3, True), pickled=True)
+    if _first_diff(exp_state, got['ckpt'][0]) or got['ckpt'][1] != 7 or _first_diff(exp_state, got['state']):
+      bad.append(['checkpoint', 'a checkpoint / state file written here loads differently in a fresh process'])
+    want = [[c.hex(), len(e['x']), _observe(e)] for c, e in clients]
+    if got['sqlite'] != want:
+      bad.append(['sqlite', 'a SQLite file written here reads differently in a fresh process'])
+    return {'status': 'ok', 'bad': bad}
+  finally:
+    shutil.rmtree(d, ignore_errors=True)
+
+
 def _run_flags(case):
   """The jax-leaf cases again in a fresh process with a global jax flag set (64-bit jax dtypes exist only under x64)."""
   import subprocess
@@ -1188,6 +1399,10 @@ def _run_flags(case):
 
 def run(case):
   k = case['kind']
+  if k == 'sqlite_big':
+    return _run_sqlite_big(case)
+  if k == 'handover':
+    return _run_handover(case)
   if k == 'flags':
     return _run_flags(case)
   if k == 'ckptseq':
@@ -1277,6 +1492,8 @@ def _tree_oracle(spec, obs, prefix=''):
 
 def _jax_to_np(o):
   """A jax.Array leaf loads back as a jax array; values/dtype/shape must be equal."""
+  if isinstance(o, dict) and o.get('t') == 'tuple':
+    return {**o, 'items': [_jax_to_np(v) for v in o['items']]}
   if isinstance(o, dict) and o.get('t') == 'jaxarr':
     return {'t': 'arr', 'dtype': o['dtype'], 'native': True, 'shape': o['shape'], 'bits': o['bits']}
   if isinstance(o, dict) and 'items' in o:
@@ -1288,6 +1505,14 @@ def _jax_to_np(o):
 
 def oracle(case, obs):
   k = case['kind']
+  if k == 'sqlite_big':
+    if obs['status'] != 'ok':
+      return [('sqlite-error', f'builder / reader raised {obs.get("err")} on {case["counts"]} clients per add_many call')]
+    return [('sqlite-count', f'add_many calls of {case["counts"]} clients: {obs["bad"]}')] if obs['bad'] else []
+  if k == 'handover':
+    if obs['status'] != 'ok':
+      return [('handover-error', 'a fresh process could not read what this one wrote: ' + obs.get('err', ''))]
+    return [('handover-' + b[0], b[1]) for b in obs['bad'][:1]]
   if k == 'flags':
     if obs['status'] != 'ok':
       return [('flags-error', 'the jax-leaf cases could not be run with ' + str(case['env']) + ': ' + obs.get('err', ''))]
@@ -1313,7 +1538,7 @@ def oracle(case, obs):
     if obs['status'] != 'ok':
       return [('ckpt-error', f'saving / loading a state raised {obs.get("err")}')]
     out = []
-    d = _first_diff(_expect(case['tree']), _jax_to_np(obs['value']))
+    d = _first_diff(_expect(case['tree'], pickled=True), _jax_to_np(obs['value']))
     if d:
       out.append(('ckpt-state', f'loaded state differs from the saved one: {d[0]} at {d[1]}'))
     if obs['round'] != case['round']:
@@ -1510,7 +1735,7 @@ def _depth(spec):
 
 
 def nontrivial(case, obs):
-  if case['kind'] in ('ckptseq', 'stateseq', 'flags'):
+  if case['kind'] in ('ckptseq', 'stateseq', 'flags', 'sqlite_big', 'handover'):
     return True
   if case['kind'] == 'tree':
     return _count(case['tree']) > 0
